@@ -19,10 +19,18 @@ package main
 // c13x.udpsess: same arguments, the datagrams really travel through the
 // loopback interface into the RunLoop goroutines (a panic there kills the
 // process); the observable is "alive".
+//
+// c13x.pulludp <acodec> <aclock> <apt> <vcodec> <vclock> <vpt> <r:pkt,c:pkt,...>
+// a real rtsp.PullSession (UDP transport) against a scripted origin on the
+// loopback interface: the origin answers OPTIONS / DESCRIBE (that SDP) / SETUP /
+// PLAY and then sends the datagrams to the client_port pair of the first SETUP
+// (r = RTP port, c = RTCP port).  Observable: "alive".
 
 import (
+	"bufio"
 	"fmt"
 	"net"
+	"regexp"
 	"strings"
 	"syscall"
 	"time"
@@ -216,7 +224,114 @@ func c13RunUdpSess(a []string, real bool) string {
 	return "ok " + c13Join(ev)
 }
 
+var c13ClientPortRe = regexp.MustCompile(`client_port=(\d+)-(\d+)`)
+
+func c13RunPullUdp(a []string) string {
+	sdpTxt := "v=0\r\no=- 0 0 IN IP4 127.0.0.1\r\ns=x\r\nc=IN IP4 127.0.0.1\r\nt=0 0\r\n" +
+		c13Media("audio", a[0], a[1], a[2], "streamid=0") + c13Media("video", a[3], a[4], a[5], "streamid=1")
+	ln, err := net.Listen("tcp", "127.0.0.1:0")
+	if err != nil {
+		return "no-listen"
+	}
+	defer ln.Close()
+	srtp, e1 := net.ListenUDP("udp4", &net.UDPAddr{IP: net.IPv4(127, 0, 0, 1)})
+	srtcp, e2 := net.ListenUDP("udp4", &net.UDPAddr{IP: net.IPv4(127, 0, 0, 1)})
+	if e1 != nil || e2 != nil {
+		return "no-listen"
+	}
+	defer srtp.Close()
+	defer srtcp.Close()
+	done := make(chan struct{})
+	go func() {
+		defer close(done)
+		c, err := ln.Accept()
+		if err != nil {
+			return
+		}
+		defer c.Close()
+		_ = c.SetDeadline(time.Now().Add(2 * time.Second))
+		r := bufio.NewReader(c)
+		rtpPort, rtcpPort := 0, 0
+		for {
+			var method, cseq, transport string
+			first := true
+			for {
+				line, err := r.ReadString('\n')
+				if err != nil {
+					return
+				}
+				line = strings.TrimRight(line, "\r\n")
+				if line == "" {
+					break
+				}
+				if first {
+					method = strings.SplitN(line, " ", 2)[0]
+					first = false
+				} else if strings.HasPrefix(line, "CSeq:") {
+					cseq = strings.TrimSpace(line[5:])
+				} else if strings.HasPrefix(line, "Transport:") {
+					transport = strings.TrimSpace(line[10:])
+				}
+			}
+			head := "RTSP/1.0 200 OK\r\nCSeq: " + cseq + "\r\n"
+			switch method {
+			case "OPTIONS":
+				_, _ = c.Write([]byte(head + "Public: OPTIONS, DESCRIBE, SETUP, TEARDOWN, PLAY\r\n\r\n"))
+			case "DESCRIBE":
+				_, _ = c.Write([]byte(head + fmt.Sprintf("Content-Type: application/sdp\r\nContent-Length: %d\r\n\r\n%s", len(sdpTxt), sdpTxt)))
+			case "SETUP":
+				if m := c13ClientPortRe.FindStringSubmatch(transport); m != nil && rtpPort == 0 {
+					_, _ = fmt.Sscanf(m[1], "%d", &rtpPort)
+					_, _ = fmt.Sscanf(m[2], "%d", &rtcpPort)
+				}
+				_, _ = c.Write([]byte(head + fmt.Sprintf("Transport: %s;server_port=%d-%d\r\nSession: 12345678\r\n\r\n", transport,
+					srtp.LocalAddr().(*net.UDPAddr).Port, srtcp.LocalAddr().(*net.UDPAddr).Port)))
+			case "PLAY":
+				_, _ = c.Write([]byte(head + "Session: 12345678\r\n\r\n"))
+				time.Sleep(5 * time.Millisecond)
+				if a[6] != "-" && rtpPort != 0 {
+					for _, it := range strings.Split(a[6], ",") {
+						f := strings.SplitN(it, ":", 2)
+						if len(f) != 2 {
+							continue
+						}
+						if f[0] == "r" {
+							_, _ = srtp.WriteToUDP(bytesTok(f[1]), &net.UDPAddr{IP: net.IPv4(127, 0, 0, 1), Port: rtpPort})
+						} else {
+							_, _ = srtcp.WriteToUDP(bytesTok(f[1]), &net.UDPAddr{IP: net.IPv4(127, 0, 0, 1), Port: rtcpPort})
+						}
+						time.Sleep(4 * time.Millisecond)
+					}
+				}
+				time.Sleep(10 * time.Millisecond)
+				return
+			default:
+				_, _ = c.Write([]byte(head + "\r\n"))
+			}
+		}
+	}()
+	var ev []string
+	s := rtsp.NewPullSession(c13Observer{&ev}, func(o *rtsp.PullSessionOption) {
+		o.PullTimeoutMs = 1500
+		o.OverTcp = false
+	})
+	err = s.Start("rtsp://" + ln.Addr().String() + "/live/x")
+	select {
+	case <-done:
+	case <-time.After(2500 * time.Millisecond):
+	}
+	if err == nil {
+		select {
+		case <-s.WaitChan():
+		case <-time.After(300 * time.Millisecond):
+		}
+	}
+	_ = s.Dispose()
+	return "alive"
+}
+
 func init() {
+	register("c13x.pulludp", c13RunPullUdp)
 	register("c13.udpsess", func(a []string) string { return c13RunUdpSess(a, false) })
 	register("c13x.udpsess", func(a []string) string { return c13RunUdpSess(a, true) })
 }
